@@ -170,7 +170,7 @@ def run(R, tier, seed, driver_ok):
                 fresh = zoo.CLASSES[name](**p2)
                 call(R, name, fresh.fit, fa, f'{name}.fit/n_components-out-of-range', f'fit with n_components={nc}, d={d}', {'est': name, 'method': 'fit', 'n_components': nc, 'd': d})
         # ---- well-formed equivalent array-likes: same numbers, same results
-        Xi = np.round(X * 4)
+        Xi = np.round(X * 1000)      # integer-valued, fine enough that the neighbour searches have no ties
         ia_, fa_i = zoo.fit_args(name, Xi, y, np.random.RandomState(seed), indices=True)
         base = fa_i[0]
         variants = {'list': base.tolist(), 'int': base.astype(np.int64), 'fortran': np.asfortranarray(base),
@@ -179,7 +179,11 @@ def run(R, tier, seed, driver_ok):
             warnings.simplefilter('ignore')
             p3 = dict(params)
             if name.startswith('SDML'):
-                p3['balance_param'] = 1e-7
+                p3['balance_param'] = 1e-12
+            if name in ('NCA', 'MLKR'):
+                p3['max_iter'] = 3          # L-BFGS amplifies last-bit differences of differently laid-out BLAS calls
+            if name == 'LMNN':
+                p3['max_iter'] = 10; p3['learn_rate'] = 1e-12
             try:
                 Mref = zoo.CLASSES[name](**p3).fit(base.astype(float), *fa_i[1:]).get_mahalanobis_matrix()
             except Exception:
@@ -192,7 +196,8 @@ def run(R, tier, seed, driver_ok):
                     except Exception as e:
                         R.violation(f'{name}.fit/equiv-{vn}-{type(e).__name__}', f'{name}.fit({vn} input) raised {type(e).__name__}: {str(e)[:100]}', {'est': name, 'variant': vn})
                         continue
-                    if np.abs(Mv - Mref).max() > 1e-9 * max(np.abs(Mref).max(), 1e-300):
+                    tol_eq = 1e-6 if name in ('NCA', 'MLKR', 'LMNN', 'LFDA', 'MMC', 'MMC_Supervised', 'LSML', 'LSML_Supervised') else 1e-9
+                    if np.abs(Mv - Mref).max() > tol_eq * max(np.abs(Mref).max(), 1e-300):
                         R.violation(f'{name}.fit/equiv-{vn}-differs', f'{name}.fit({vn} input) learns a different metric than the float64 C array', {'est': name, 'variant': vn})
         # ---- with a preprocessor: wrong-shaped index arrays are rejected too
         estp, Xp, yp, argsp = zoo.fitted(name, rng, d=d, preprocessor='array')
